@@ -91,6 +91,7 @@ theorem sub_patched_reading {r r3 : Raw} (hinv : Inv r) (v : Vol) (fsL : List LR
     readTree r4 (hdrTotal r) = .ok (fs', ch) ∧ hdrTotal r4 = hdrTotal r ∧ hdrBm r4 = hdrBm r ∧
     r4.units.size = r.units.size ∧ ShapeOk r4 ∧ StdGeo r4 2 ∧ PrevOk r4 0 ch ∧
     (FileSlotOk r4 (e', B', k' + 1) → ∀ y ∈ dirSlots r4 2 ch, SlotOk r4 (hdrTotal r4) y) ∧
+    (∀ y ∈ dirSlots r4 2 ch, isAct y = true → 47 ∉ trimName y.1) ∧
     (∀ j, j ∉ bmRange (hdrBm r) (nbmOf (hdrTotal r)) → r4.units[j]? = r3.units[j]?) := by
   obtain ⟨hw, hn, hroot, hv, hcr, hic, hnd, hchf, h2, h6, h3, hbt, hstv⟩ := root_chain_facts hinv v fsL ch hread htree
   obtain ⟨hsplit, h1, h2', hfs2, hfiles, hdisj, _, hxown, hall, hcnt0⟩ :=
@@ -198,7 +199,8 @@ theorem sub_patched_reading {r r3 : Raw} (hinv : Inv r) (v : Vol) (fsL : List LR
             · exact hnewbm j hj a12
           · exact hnbm j (hother t2 (fun y hy => List.mem_append_right _ hy) j a2) hj)
       buf3 hbs hbok fs' (by rw [hfs', hsr3]) r4 hr4
-  refine ⟨hrd4, htree4, htot4, hbm4, hsz4, hshape4, hgeo4, hprev4, ?_, hsame4⟩
+  refine ⟨hrd4, htree4, htot4, hbm4, hsz4, hshape4, hgeo4, hprev4, ?_,
+    by rw [hslots4, ← hsplit]; exact hroot.names, hsame4⟩
   intro hfok y hy
   rw [hslots4] at hy
   have hothers : ∀ y ∈ s1 ++ s2, SlotOk r4 (hdrTotal r4) y := hslotok4
